@@ -251,6 +251,14 @@ let handle kind a =
        | HvOk out -> Some ("Ok:" ^ hex_of_bytes out)
        | HvRec (_, VvPanic) -> Some "Panic"
        | HvReadHeaderErr | HvWriteHeaderErr | HvRec _ -> Some "Err")
+  | "cvbh" ->
+      let tab = if a.(0) = "-" then [] else ftab a.(0) in
+      (match convert_bcf_vcf_hfile (fmt_of tab) (bytes_of_hex a.(1)) with
+       | BhOk out -> Some ("Ok:" ^ hex_of_bytes out)
+       | BhRec (_, VvPanic) -> Some "Panic"
+       | BhReadHeaderErr true -> Some "Err:UnexpectedEof"
+       | BhReadHeaderErr false -> Some "Err:InvalidData"
+       | BhWriteHeaderErr | BhRec _ -> Some "Err")
   | _ -> None
 
 let () = run_driver handle
